@@ -31,6 +31,17 @@ CLAIMS = {
         "machine and buffer tree, text output, symbol-table emission; no independent decoder exists in this family - 'equals the "
         "specification function' stands in for it. Trusted: go/ssa, solvers, 64-bit int, append modelled as always-fresh array.",
         "DESIGN.md section 7 C04"),
+    "C05": (
+        "The mechanisms that make a copy independent of the source's symbol IDs, in the binary writer and the symbol-table reader: "
+        "binaryWriter.WriteSymbol resolves the token's text whenever it has one and uses the token's ID only for a token without text (ghost call "
+        "counter: exactly one resolution when text is present), and writes the ID it resolved; beginValue does the same for the field name and "
+        "resolves every annotation by text; WriteSymbolFromString resolves its argument; resolve hands everything that is not $n to the symbol "
+        "table; readSymbols gives every element of a symbols list exactly one slot, so later IDs do not shift; sst.Adjust keeps name, version "
+        "and the requested max_id.",
+        "Not decided: the copy loop as a whole (Reader accessors into Writer calls for every type, containers, typed nulls), the text writer's "
+        "symbol output (writeSymbol goes through fmt), cmd/ion-go's processor, and equivalence of the output stream with the input (needs the "
+        "reader/writer composition). Defect found and repaired: the binary writer preferred the source stream's ID over known text.",
+        "DESIGN.md section 7 C05"),
     "C06": (
         "No-panic (nil dereference, index and slice bounds, failed type assertion, explicit panic, makeslice) obligations for every function of "
         "the binary reading path under contract, under the representation invariants bsLocal/bsNested/brLocal that each operation is proved to "
@@ -77,6 +88,18 @@ CLAIMS = {
         "observers). The Reader seen by readLocalSymbolTable is an interface (pure observers, versioned ghost state); binaryReader.next "
         "calls readLocalSymbolTable by an assumed thin contract.",
         "DESIGN.md section 7 C10"),
+    "C11": (
+        "NewBinaryWriter hands exactly the given shared tables to the symbol-table builder; NewBinaryWriterLST keeps the fixed table, unwritten. "
+        "resolveFromSymbolTable: with a fixed table the ID is the table's own FindByName answer and unknown text is an error (no ID is produced); "
+        "with a builder the text goes to SymbolTableBuilder.Add, whose contract (text is findable afterwards under the returned ID) is carried to "
+        "the caller; symbolTableBuilder.Add itself never renumbers and returns the existing ID for known text (C09 contracts). beginValue writes "
+        "the fixed table once, before the first value. lst.WriteTo declares every import after the system table with name, version and max_id "
+        "and every local symbol in order, none skipped (loop invariants over ghost call counters on the Writer interface).",
+        "Not decided: that a Reader with the same catalog recovers the text (composition with C10), the byte layout of the emitted table beyond the "
+        "Writer calls made, Finish ordering (table before buffered values), marshal's use of these constructors. The interface contract of "
+        "SymbolTableBuilder.Add is assumed of implementations other than symbolTableBuilder (whose own contract states the same facts over its "
+        "fields); lstWF is an assumed precondition.",
+        "DESIGN.md section 7 C11"),
     "C12": (
         "For every method of both writers (binary and text, 24 methods each, plus FieldName/Annotation/Annotations): once w.err is set the call "
         "returns it and leaves it in place, and a call other than Finish that returns an error has recorded it in w.err - so checking the final "
